@@ -505,6 +505,9 @@ def as_payload(ex, v):
             return Raw(c.encode('utf-8'))
     if isinstance(v, BufV):
         return v.freeze()
+    cb = M.concrete_bytes(v)
+    if cb is not None:
+        return Raw(cb)
     raise Unsupported('not a byte payload: %r' % (v,))
 
 
